@@ -21,6 +21,7 @@ import GruleModel.Loaders
 import GruleModel.Json.Translate
 import GruleModel.Syntax.Front
 import GruleModel.Gen.LoaderFacts
+import GruleModel.Proofs.SnapInj
 namespace Grule.C20
 open Grule Grule.Loaders
 
@@ -64,6 +65,32 @@ theorem C20_lex_fuel (fuel : Nat) (acc : Syntax.LexOut) : Syntax.lexLoop fuel []
 example : readMany 10 ([0,0,0,0,0,1,0,0] ++ List.replicate 10 7) ≤ 18 + chunk := C20_grb_alloc_bounded _ _
 example : readAlloc 3 (2^40) 10 = 65536 := by decide +kernel
 
+/-- **Snapshots grow additively** (F20): the snapshot of a selector atom is its receiver's snapshot, the selector's, and 12
+    more characters — so a chain of `n` selectors on a receiver adds `O(n)` characters, not a factor `2^n` as it did while
+    the receiver was written twice (`f()[0]…[0]` with 20 selectors: 7.9 GB). The same holds for every other node kind:
+    each printer writes each child once. -/
+theorem C20_selector_snapshot_additive (recv : Atom) (idx : Expr) :
+    (snapA (.sel recv idx)).length = (snapA recv).length + (snapE idx).length + 12 := by
+  simp only [snapA, tA, tSel, tMAS, tClose, List.length_append, List.length_cons, List.length_nil]
+  omega
+
+/-- a chain of `n` selectors with the same index on a receiver -/
+def selChain (recv : Atom) (idx : Expr) : Nat → Atom
+  | 0 => recv
+  | n + 1 => .sel (selChain recv idx n) idx
+
+/-- … has a snapshot that is linear in `n` -/
+theorem C20_selector_chain_linear (recv : Atom) (idx : Expr) (n : Nat) :
+    (snapA (selChain recv idx n)).length = (snapA recv).length + n * ((snapE idx).length + 12) := by
+  induction n with
+  | zero => simp [selChain]
+  | succ n ih =>
+    simp only [selChain, C20_selector_snapshot_additive, ih]
+    rw [Nat.succ_mul]
+    omega
+
+#print axioms C20_selector_snapshot_additive
+#print axioms C20_selector_chain_linear
 #print axioms tie_allocation_sites
 #print axioms tie_guards
 #print axioms C20_json_depth_guard
